@@ -137,6 +137,13 @@ def gen_cases(family, tier):
             if getattr(spec, "expect_decline", None):
                 c.cfgs[0]["expect_decline"] = spec.expect_decline
             cases.append(c)
+        for i in range(max(10, n // 10)):
+            # the push constant as the only module-scope variable, several entry points per
+            # stage in interleaved order
+            r = core.rng("bind-pc-only", i)
+            c = Case("p%d" % i, family, F.fam_bind(r, i, None, pc_only=True))
+            c.cfgs = [{"opt": {"mv": "rust", "val": "all"} if i % 2 else {"mv": "glam"}}]
+            cases.append(c)
     elif family == "struct":
         nm = SIZES[tier]["c09matrix"]
         directed = F.directed_struct_specs()
@@ -1021,6 +1028,33 @@ def decline_guard(camp, prop_cases):
         return ["tool declined %d of %d expected-supported cases, e.g. %s" % (
             len(declined), total, declined[:3])], len(declined)
     return [], len(declined)
+
+
+def profile_disagreements(camp, pairs, name):
+    """[(case, cfg, dev result, release result)] for the (case, cfg) pairs whose result under a
+    release build of the generator (no debug assertions) differs from the campaign's (dev
+    build) result: the build profile of the generator is not an input of the generation"""
+    binp = core.build_drive("release")
+    jobs = []
+    for c, x in pairs:
+        j = {"id": "%s|%s" % (c.id, x["id"]), "source": c.wgsl, "opt": x["opt"]}
+        if x.get("include_path") is not None:
+            j["include_path"] = x["include_path"]
+        jobs.append(j)
+    res, crashed = core.run_drive_sharded(binp, jobs, name)
+    if crashed:
+        raise core.Inconclusive("release driver crashed: %r" % (crashed[:1],))
+    out = []
+    for c, x in pairs:
+        a = c.gen.get(x["id"], {})
+        b = res.get("%s|%s" % (c.id, x["id"]))
+        if b is None or a.get("result") == "lost":
+            continue
+        ka = a.get("text_sha") if a.get("result") == "ok" else (a.get("result"), a.get("err_kind"))
+        kb = b.get("text_sha") if b.get("result") == "ok" else (b.get("result"), b.get("err_kind"))
+        if ka != kb:
+            out.append((c, x, a, b))
+    return out, len(jobs)
 
 
 def refused(c, x):
